@@ -18,8 +18,38 @@ def run(chk):
                     'x86abs models of bit_field and bitflags-generated methods']
     chk.assumptions += ['architectural values in spec/arch_constants.py are transcribed correctly from the manuals']
     constants(chk)
+    chk.guard('flag-table', 'bitflags tables', lambda: flag_tables(chk))
     enums(chk)
     codecs(chk)
+
+
+def flag_tables(chk):
+    """what `all()`, `from_bits`, `from_bits_truncate`, `!` and the typed register reads/writes of a bitflags type call
+    "known bits" is its flag table `<T as bitflags::Flags>::FLAGS`, not its named constants: the table must consist of exactly the
+    named constants (an unnamed `const _ = ..` entry would make further bits "known" without any constant changing)"""
+    I = chk.I
+    n = 0
+    for c in chk.facts['consts']:
+        nm = c['name']
+        if not (nm.endswith(' as bitflags::Flags>::FLAGS') and nm.startswith('<')):
+            continue
+        ty = nm[1:].split(' as bitflags::Flags')[0]
+        if 'InternalBitFlags' in ty:
+            continue
+        n += 1
+        tbl = c.get('flags')
+        short = ty.split('::')[-1]
+        if tbl is None:
+            chk.unproven('flag-table', short, 'flag table not extracted (anchor lost)')
+            continue
+        unnamed = [e['value'] for e in tbl if not e['named']]
+        tor = 0
+        for e in tbl:
+            tor |= int(e['value'], 16)
+        named = I.flags_named_or(ty)
+        chk.ob('flag-table', '%s: the flag table is exactly the named constants (no unnamed entries; same union of bits)' % short, not unnamed and tor == named,
+               'unnamed entries %s; table covers %#x, named constants cover %#x' % (unnamed, tor, named), c['loc'])
+    chk.floor('bitflags types with a flag table', n, 14)
 
 
 def scalar(c):
